@@ -24,7 +24,7 @@ Device(ps) == [structs |-> [k \in 1..Len(ps) |-> MsgStruct(k)], enums |-> <<>>,
                impls |-> [k \in 1..Len(ps) |-> MsgImpl(k, ps[k])]]
 Devices == { Device(ps) : ps \in UNION { Tuples(PeriodChoices, n) : n \in 1..NMsgs } }
 
-Init == /\ \E S \in Devices : SInit(S)
+Init == /\ \E S \in Devices : SInit(S, "ecu")
         /\ now = Time0 /\ delta = 0
         /\ since = [n \in DOMAIN val |-> 0]
 Step(d) ==
